@@ -432,6 +432,79 @@ def inst_reshape_then_int(kind):
     return Instance(f"reshape_then_int[{kind}]", body, dict(kind=kind), unit="Reshape._accept_slice", api_replay=api)
 
 
+def inst_dask_int_values(L, xblocks):
+    """x[i] with an integer dask array i: the two block kernels (slice_with_int_dask_array per block of x,
+    slice_with_int_dask_array_aggregate per chunk of i), composed the way slice_with_int_dask_array_on_axis wires them, on
+    index entries that are *unbounded* symbolic integers (an index chunk of L entries; x has `xblocks` blocks of symbolic
+    size): every entry in [-n, n) selects NumPy's element, and an entry outside raises instead of returning data"""
+    def body(E):
+        import z3
+
+        from symx import core
+        from symx.iarr import IArr, INp
+        from symx.sarr import concatenate_nested, leaf
+
+        CHK = "dask_array._chunk"
+        w = world("C12-intidx", E.symbolic, [CHK])
+        w.ns[CHK]["np"] = INp()
+        w.ns[CHK]["slice"] = slice
+        chunks = tuple(E.int(f"c{i}", 1) for i in range(xblocks))
+        n = sum(chunks)
+        X = leaf("X", (n,))
+        idx = IArr(E.int(f"i{k}") for k in range(L))
+        bnd = cumsum0(chunks)
+        in_range = AND(*[AND(v >= -n, v < n) for v in idx])
+        from symx.sarr import BoundsLog
+
+        log = BoundsLog()  # positions the kernels index their blocks with: outside a block NumPy raises IndexError
+        try:
+            parts = []
+            for i in range(xblocks):
+                blk = X[bnd[i]:bnd[i + 1]]
+                blk.log = log
+                parts.append(w.fn(CHK, "slice_with_int_dask_array")(blk, IArr(idx), [bnd[i]], n, 0))
+            E.observe("selected-per-block", [len(p) if isinstance(p.shape[0], int) else -1 for p in parts])
+            cat = concatenate_nested(parts)
+            cat.log = log
+            out = w.fn(CHK, "slice_with_int_dask_array_aggregate")(IArr(idx), cat, chunks, 0)
+        except IndexError:
+            E.ensure("an-index-in-range-does-not-raise", NOT(in_range))
+            return
+        inside = AND(*[c for _l, c in log.items])
+        E.ensure("an-index-in-range-does-not-raise", IMPLIES(in_range, inside))
+        E.ensure("out-of-bounds-index-raises", OR(in_range, NOT(inside)))
+        E.assume(inside)  # (otherwise NumPy raised inside a kernel: nothing is returned)
+        E.ensure("one-element-per-index-entry", EQ(tuple(out.shape), (L,)))
+        for k, v in enumerate(idx):
+            pos = core._ite(v < 0, v + n, v)
+            E.ensure("selects-numpys-element", core._wrapb(out._at((z3.IntVal(k),)) == X._at((core._z(pos),))))
+
+    def api(values):
+        import dask_array as da
+
+        cs = tuple(values[f"c{i}"] for i in range(xblocks))
+        ii = [values[f"i{k}"] for k in range(L)]
+        n = sum(cs)
+        if n > 5000:
+            return dict(ok=False, detail="outside API replay range")
+        X = np.arange(n) * 10
+        x = da.from_array(X, chunks=(cs,))
+        try:
+            want = X[np.array(ii)]
+        except IndexError:
+            want = None
+        try:
+            got = x[da.from_array(np.array(ii), chunks=L)].compute(scheduler="sync")
+        except IndexError:
+            got = None
+        ok = (got is None and want is None) or (got is not None and want is not None and np.array_equal(got, want))
+        return dict(ok=bool(ok), detail=f"x chunks {cs}, index {ii}: dask {None if got is None else got.tolist()}, numpy "
+                                        f"{None if want is None else want.tolist()} (None = IndexError)")
+
+    return Instance(f"dask_int_index_values[entries={L},x blocks={xblocks}]", body, dict(entries=L, x_blocks=xblocks),
+                    unit="chunk.slice_with_int_dask_array + slice_with_int_dask_array_aggregate", api_replay=api, cost=4)
+
+
 def inst_refusal(kind):
     """index forms the implementation does not support must raise, not return data: an integer dask array next to a list /
     NumPy array index on another axis, or two list indices (x's chunk sizes symbolic)"""
@@ -522,6 +595,10 @@ def instances(tier):
     out.extend(_program_instances(tier))
     for kind in ("dask-int+list", "dask-int+ndarray", "list+list"):
         out.append(inst_refusal(kind))
+    out.append(inst_dask_int_values(1, 2))
+    out.append(inst_dask_int_values(2, 2))
+    if not q:
+        out.append(inst_dask_int_values(3, 3))
     for kind in ("ravel()[i]", "reshape(n,1,1)[i,0]"):
         out.append(inst_reshape_then_int(kind))
     for kind in ("x[i,1]", "x[1,i]", "x[i][:,a:]", "x[i][::2]", "x3[s,i,:]"):
